@@ -178,6 +178,27 @@ fn fixed_programs() -> Vec<(Program, Vec<String>)> {
         },
         vec!["f".to_string()],
     ));
+    // a call to a label that heads no instruction (end of the file / only data behind it)
+    v.push((
+        Program {
+            stmts: vec![label("main"), call("f"), li(A7, 10), ecall(), label("g"), ret(), label("f")],
+        },
+        vec!["f".to_string()],
+    ));
+    v.push((
+        Program {
+            stmts: vec![
+                label("main"),
+                call("f"),
+                li(A7, 10),
+                ecall(),
+                label("f"),
+                Stmt::Directive(".data".into()),
+                Stmt::Directive(".word 1".into()),
+            ],
+        },
+        vec!["f".to_string()],
+    ));
     // several labels on one entry, data label directly before a function label
     v.push((
         Program {
@@ -251,6 +272,13 @@ pub fn check_functions(
                 if carries { "call-target-without-entry".into() } else { "entry-without-call-target".into() },
                 node_desc(cfg, n),
             ));
+        }
+    }
+    // every label a call names is a function: it heads an instruction (a program whose call
+    // target heads nothing must not be analysed as if the call were fine)
+    for t in &targets {
+        if !nodes.iter().any(|n| n.labels.iter().any(|l| l.get().as_str() == *t)) {
+            return Some(("call-target-heads-no-instruction".into(), (*t).to_string()));
         }
     }
     let funcs = unique_functions(cfg);
